@@ -1751,6 +1751,8 @@ impl World {
                         let p = s.conn.verif_probe(epoch);
                         json!({"n":n.idx,"c":c,"uid":s.uid,"lcids":p.loc_cid_active.len(),"lost":s.lost,"drained":s.drained,
                             "rem":p.path.remote.map_or(0, addr_id),"val":p.path.validated,
+                            "sstreams":p.streams.send.iter().filter(|x| x.unacked > 0 && x.state < 3)
+                                .map(|x| json!([x.id, x.unacked.min(1 << 30), x.state])).collect::<Vec<_>>(),
                             "ifb":p.path.in_flight_bytes,"ifae":p.path.in_flight_ack_eliciting,"st":p.state,
                             "tm0":p.timers[0].unwrap_or(-1),"tm6":p.timers[6].unwrap_or(-1),
                             "pcrypto":p.spaces[0].pending_crypto + p.spaces[1].pending_crypto,
